@@ -17,7 +17,8 @@ EXPLANATION = (
     "_findall/_find; _find calls _findall with maxcount=1 and returns the first element or None. F3 the CountError raises "
     "are control-dependent on `mincount is not None and len < mincount` resp. `maxcount is not None and len > maxcount` "
     "(None-tests, strict comparisons after normalising orientation), both numbers appear in the message. F4 the "
-    "attribute filter reads the attribute inside try/except AttributeError → False and compares with ==. Not decided: "
+    "attribute filter reads the attribute inside try/except AttributeError → False and compares with ==; the verdict is initialised per node and every admitted node is examined. F5 the "
+    "CountError message templates are constants. Not decided: "
     "that PreOrderIter itself is right (C05/C06)."
 )
 ASSUMPTIONS = ["fastcache (optional, not installed) is outside the analysed program", "len() of a tuple is its number of elements"]
